@@ -25,7 +25,7 @@ ASSUMPTIONS = [
     "oracle closed forms in verif/oracles.py (support value, distance to shape) are correct; NNLS hull distance noise <= 1e-11*L",
     "tolerance applied to the projection on the unit direction d/|d|",
 ]
-MIN_EVENTS = {"support_calls": 2000, "first_vertex_calls": 50}
+MIN_EVENTS = {"support_calls": 2000, "first_vertex_calls": 50, "pose_updates": 300}
 CASE_TIMEOUT_S = 60
 
 
@@ -76,13 +76,16 @@ def run_case(rng, idx, tier):
                              "msg": "%s of %s: support value missed by %.3g*L for d=%s" % (what, O.name(spec), e, d.tolist())})
 
     cur = orc
+    updatable = gen.target_pose(b) is not None
+    do_update = updatable and (kind == "mesh" or rng.random() < 0.3)
     for i, d in enumerate(dirs):
-        if kind == "mesh" and i == len(dirs) // 2:
-            # history clause: pose update in the middle, cached vertex stays
-            G = O.pose(gen.rand_rot(rng), rng.normal(size=3))
+        if do_update and i == len(dirs) // 2:
+            # history clause: pose update in the middle (mesh: the cached vertex stays); the pose arrives as a fresh
+            # array, a slice of a stack or a re-used buffer that was overwritten in place
+            G = O.pose(gen.rand_rot(rng, "tiny" if rng.random() < 0.2 else None), rng.normal(size=3))
             spec2 = O.moved(spec, G)
             b2 = spec2["base"] if spec2["kind"] == "margin" else spec2
-            col.update_pose(np.array(b2["T"], dtype=float, order="C"))
+            gen.apply_pose(col, gen.target_pose(b2), rng)
             cur = O.oracle(spec2)
             L = max(L, O.scene_L([cur]))
             ev["pose_updates"] += 1
